@@ -257,12 +257,12 @@ def parse_simgen(text):
 
 def parse_model(line):
     """driver output -> {'VALID':b, 'MIMPL': {(model,label): rec} | 'FAIL', 'MREF':..., 'MSCHED':..., 'PROTO': {...}}"""
-    out = {'VALID': None, 'MIMPL': {}, 'MREF': {}, 'MSCHED': {}, 'PROTO': None, 'raw': line[:200]}
+    out = {'VALID': None, 'MIMPL': {}, 'MREF': {}, 'MSCHED': {}, 'RIMPL': {}, 'PROTO': None, 'raw': line[:200]}
     for rec in line.split(' | '):
         p = rec.split(' ', 3)
         if p[0] == 'VALID':
             out['VALID'] = p[1] == '1'
-        elif p[0] in ('MIMPL', 'MREF', 'MSCHED'):
+        elif p[0] in ('MIMPL', 'MREF', 'MSCHED', 'RIMPL'):
             if p[1] == 'FAIL':
                 out[p[0]] = 'FAIL'
             else:
@@ -296,6 +296,15 @@ def main():
     quick = c.tier == 'quick'
     rng = c.rng
     notes = []
+    if not quick and not c.proof_broken:
+        # independent re-check of the compiled theorems and everything they depend on
+        try:
+            with c07hooks._Lock():
+                out = sh('timeout 2400 coqchk -silent -o -Q . OW OW.Properties.C07', cwd=COQ, timeout=2500)
+            ax = out.split('* Axioms:')[1].split('*')[0].strip() if '* Axioms:' in out else '?'
+            notes.append('coqchk OW.Properties.C07: ok, axioms: ' + ax)
+        except BuildError as e:
+            c.proof_broken = ('coqchk OW.Properties.C07', e.output[-3000:])
     try:
         build_driver()
         build_harness(['simgen'])
@@ -390,15 +399,41 @@ def main():
         results.update(r)
 
     # ---- the extracted models on the same graphs, under the observed traces
+    # The kernel family K of the extracted models is the table of what the Go kernels returned when
+    # simgen's oracle ran every node alone (so this check decides the simulation layer only; the Coq
+    # models of the kernels themselves belong to C10-C16 and are reported here as RIMPL for information).
+    def oracle_section(cd, r):
+        parts, k = [], 0
+        for m in cd['models']:
+            recs = [r['ORACLE'].get((m['name'], lab)) for lab in ('inputs', 'outputs', 'states')]
+            if m['N'] == 0 or any(x is None or x == 'NONE' or ':' not in x for x in recs):
+                continue
+            try:
+                hd = [x.split(':')[0].split() for x in recs]
+                vals = [x.split(':', 1)[1].split() for x in recs]
+                n, ni, t = int(hd[0][1]), int(hd[0][2]), int(hd[0][3])
+                no, ns = int(hd[1][2]), int(hd[2][2])
+                if int(hd[1][1]) != n or int(hd[2][1]) != n or int(hd[1][3]) != t or n != m['N']:
+                    continue
+                if len(vals[0]) != n * ni * t or len(vals[1]) != n * no * t or len(vals[2]) != n * ns:
+                    continue
+            except (ValueError, IndexError):
+                continue
+            parts += ['OM', m['name'], str(n), str(ni), str(no), str(ns), str(t)] + vals[0] + vals[1] + vals[2]
+            k += 1
+        return ['ORACLE', str(k)] + parts
     lines = []
     for fn in files:
-        tr = results.get(fn, {}).get('trace', [])
-        lines.append('SIM ' + ' '.join(cases[fn]['tokens']) + ' TRACE %d ' % len(tr) + ' '.join(' '.join(t) for t in tr))
+        r0 = results.get(fn, {'trace': [], 'ORACLE': {}})
+        tr = r0['trace']
+        lines.append('SIM ' + ' '.join(cases[fn]['tokens']) + ' ' + ' '.join(oracle_section(cases[fn], r0)) +
+                     ' TRACE %d ' % len(tr) + ' '.join(' '.join(t) for t in tr))
     mres = run_model(lines, timeout=1800)
 
     stats = {'runs': 0, 'putback_runs': 0, 'main_putback_runs': 0, 'distinct_traces': set(), 'max_G': 0, 'links': 0,
              'fanin_ge2': 0, 'empty_batches': 0, 'last_batch_empty': 0, 'no_stored_inputs_models': 0, 'nooutfile': 0,
-             'flag_cases': 0, 'split_cases': 0, 'finalstates_cases': 0, 'T_values': set(), 'race_runs': 0}
+             'flag_cases': 0, 'split_cases': 0, 'finalstates_cases': 0, 'T_values': set(), 'race_runs': 0,
+             'coq_kernel_models_disagree_with_go_kernels': 0}
     for fn, ml in zip(files, mres):
         cd = cases[fn]
         r = results.get(fn)
@@ -492,6 +527,8 @@ def main():
                     if a != b:
                         c.corr_broken.append({'case': cd['id'], 'diff': '%s %s %s impl=%s model=%s' %
                                               (tag, m['name'], label, (a or '')[:120], (b or '')[:120])})
+        if mo['RIMPL'] and mo['RIMPL'] != mo['MIMPL']:
+            stats['coq_kernel_models_disagree_with_go_kernels'] += 1      # information for C10-C16, not a C07 matter
         if not cd['split'] and mo['MIMPL'] != mo['MREF']:
             c.corr_broken.append({'case': cd['id'], 'diff': 'extracted impl_sim <> ref_sim on a valid graph (theorem instance)'})
         # ---- protocol
@@ -513,7 +550,8 @@ def main():
                      '-no-inputs-for/-final-states, no output file) written through io.H5Ref* into a fake-HDF5 file, run by the '
                      'real ow-sim binary under GOMAXPROCS in {1,2,4,16} with random delays at the trace points; every dataset '
                      'of the output compared bit-for-bit with (i) every node run alone through sim.Catalog (oracle), (ii) the '
-                     'extracted impl_sim under the observed schedule and under the canonical one, (iii) ref_sim; the trace '
+                     'extracted impl_sim under the observed schedule and under the canonical one, (iii) ref_sim - the kernel '
+                     'family K of the extracted models being the table of the Go kernels\' own answers; the trace '
                      'checked by the extracted acceptor; non-trivial = at least 2 generations and 1 link')
     c.finish(extra_cov=dict(stats, notes=notes, exhaustive=False),
              assumptions=['Go channel semantics: an unbuffered channel send and receive complete together (rendezvous); nothing else '
@@ -524,7 +562,9 @@ def main():
                           'disjoint arrays (C05)',
                           'HDF5 is the pure-Go fake (harness/fakehdf5); hyperslab row selection = rows [start,stop) (property C08)',
                           'GOMAXPROCS sweep, jitter and the race detector are testing, not proof',
-                          'kernels of the float instance are those of Registry.kernels (checked against Go by C10-C16/C19)'])
+                          'the kernel family K given to the extracted models is the table of results of the Go kernels run '
+                          'alone on each node (one-cell runs through sim.Catalog); the Coq kernel models of Registry.kernels are '
+                          'only compared for information (coq_kernel_models_disagree_with_go_kernels)'])
 
 
 if __name__ == '__main__':
